@@ -45,7 +45,7 @@ BUILTIN_NAMES = {
 }
 SPEC_NAMES = {
     "old", "result", "exc", "forall", "exists", "implies", "ite", "occ", "pm", "first", "isfirst", "nofirst", "flat",
-    "no_occ", "iff", "Resync", "rk", "view_lo", "view_hi", "view_of", "unit", "empty_seq", "fn", "typeof", "isnone", "fresh_call",
+    "no_occ", "iff", "Resync", "rk", "view_lo", "view_hi", "view_of", "orempty", "same_object", "unit", "empty_seq", "fn", "typeof", "isnone", "fresh_call",
 }
 ALLOWED_EXTERNAL_CONST_MODULES = {"errno", "math", "selectors", "socket", "ssl", "sys", "os"}
 
@@ -430,6 +430,8 @@ class EngineCore:
     def need(self, st: State, ctx: Ctx, v: Any, line: int, what: str) -> Any:
         """Unwrap an Opt with the obligation that it is not None."""
         if isinstance(v, Opt):
+            if ctx.spec:
+                return v.val  # meaningful only under the clause's own guard
             self.oblige(st, z3.Not(v.isnone), "not-none", line, what)
             st.assume(z3.Not(v.isnone))
             return v.val
